@@ -475,6 +475,15 @@ def run_sequence(case, rec, twin=None, with_oracles=True):
                 if kind == "step" and (op[3].get("enable_vary") is not None or op[3].get("enable_vary_name") is not None):
                     frozen = []
                 if not restored:
+                    if kind == "step" and not case["opts"].get("check_limits", True):
+                        # step() runs _clip_to_limits() before its temporary disable_* arguments take effect
+                        for j in frozen:
+                            lj = case["vary"][j]["limits"]
+                            if va_before[j] and lj is not None:
+                                if lj[0] is not None and kn_before[j] < lj[0]:
+                                    kn_before[j] = float(lj[0])
+                                elif lj[1] is not None and kn_before[j] > lj[1]:
+                                    kn_before[j] = float(lj[1])
                     for j in frozen:
                         if kn_after[j].hex() != kn_before[j].hex():
                             out["C10"].append({"what": "disabled knob changed", "op": iop, "knob": j,
